@@ -420,7 +420,23 @@ impl Handler<StateApplyRequest> for StateApplyManager {
 impl Handler<StateApplyAsyncRequest> for StateApplyManager {
     type Result = ResponseActFuture<Self, anyhow::Result<StateApplyResponse>>;
 
-    fn handle(&mut self, msg: StateApplyAsyncRequest, _ctx: &mut Self::Context) -> Self::Result {
+    fn handle(&mut self, msg: StateApplyAsyncRequest, ctx: &mut Self::Context) -> Self::Result {
+        if self.log_manager.is_none()
+            || self.index_manager.is_none()
+            || self.snapshot_manager.is_none()
+            || self.data_wrap.is_none()
+        {
+            // 启动时raft可能先于bean注入开始应用日志: 依赖尚未注入时稍后重试,
+            // 否则unwrap panic会使该actor退出(此后节点无法再应用任何日志)
+            let addr = ctx.address();
+            let fut = async move {
+                tokio::time::sleep(std::time::Duration::from_millis(50)).await;
+                addr.send(msg).await?
+            }
+            .into_actor(self)
+            .map(|r, _act, _ctx| r);
+            return Box::pin(fut);
+        }
         let log_manager = self.log_manager.clone().unwrap();
         let index_manager = self.index_manager.clone().unwrap();
         let snapshot_manager = self.snapshot_manager.clone().unwrap();
